@@ -149,6 +149,11 @@ def run(scn):
                     return sum(1 for i in range(1, len(e)) if e[i] > e[i - 1])
 
                 erratic = bool(where["screening"] and a["n_screen"] != b["n_screen"] and min(a["n_screen"], b["n_screen"]) >= 60 and min(bounces(a["screen_errs"]), bounces(b["screen_errs"])) >= 10)
+                # ... or the induced potential is at rounding-noise level in one twin (exactly zero
+                # currents in one statement of the problem, 1e-18 noise in the other): the relative
+                # criterion then compares noise with noise
+                amin = min(float(np.max(np.abs(a["out"]["induced_vector_potential"]), initial=0.0)), float(np.max(np.abs(b["out"]["induced_vector_potential"]), initial=0.0)))
+                erratic = erratic or bool(where["screening"] and a["n_screen"] != b["n_screen"] and amin < 1e-10)
                 V.append(
                     Violation(
                         "gauge-dependent",
